@@ -1447,6 +1447,16 @@ def units(c, rebound, exe, parsed, ref):
             note("period_SI_invariance", e)
             if not e <= 1e-12:
                 fails.append(("units-period", "orbital period in seconds depends on the unit system %r: %.17g vs %.17g" % ((l, t, m), P1, Pw), dict(units=(l, t, m), P=P1, want=Pw)))
+            if idx % 4 == 0:
+                # variational particles are converted like the real ones (convert_particle_units loops over all N):
+                # a variation of a position / velocity / mass scales like a position / velocity / mass
+                sim.add_variation()
+                for k_ in range(2, sim.N):
+                    pv = sim.particles[k_]
+                    pv.m = rng.normal() * 1e-3
+                    for f_ in ("x", "y", "z", "vx", "vy", "vz", "ax", "ay", "az"):
+                        setattr(pv, f_, rng.normal())
+                c.count(("convert-with-variations", idx % 40))
             before = [[getattr(p, f) for f in fields] for p in sim.particles]
             for kk in range(ntarget):
                 l2, t2, m2 = triples[perm[(idx + kk * 577) % len(triples)]]
@@ -1461,7 +1471,7 @@ def units(c, rebound, exe, parsed, ref):
                 if not abs(float((Fr(sim.G) - G2) / G2)) <= 4e-15 or sim.units != {"length": l2, "time": t2, "mass": m2}:
                     fails.append(("units-convert-G", "after convert_particle_units(%r) G / units are not those of the new system" % ((l2, t2, m2),), dict(frm=(l, t, m), to=(l2, t2, m2), G=sim.G, units=sim.units)))
                 worst_e = 0.0
-                for pi in range(2):
+                for pi in range(sim.N):
                     for fi, f in enumerate(fields):
                         dl, dt_, dm = dims[f]
                         fac = (exactL[l] / exactL[l2]) ** dl * (exactT[t] / exactT[t2]) ** dt_ * (exactM[m] / exactM[m2]) ** dm
